@@ -231,6 +231,8 @@ def isArr : Val → Bool | .arr _ => true | _ => false
 
 /-- `(uint32_t)` of an int64 stack value (`tag == TAG_INT ? i64 : 0`) -/
 def asI64 : Val → I64 | .int n => n | _ => 0
+/-- an array index: an int, or an enum value (its number) -/
+def asIdx : Val → I64 | .int n => n | .enum v => i64 v | _ => 0
 def coerceEnum : Val → Val | .enum v => .int (i64 v) | v => v
 
 /-- set up a call frame (`OP_CALL`, `OP_CALL_INDIRECT`, `OP_CLOSURE_CALL`) -/
@@ -504,8 +506,8 @@ def execData' (m : Module) (fr : Frame) (s : Core) (instrStart : Nat) (op : Opc)
     match av with
     | .arr a => match s.heap.obj? a with
       | some (.arr _ es) =>
-        if idxInRange (asI64 iv) es.length then
-          let v := es.getD (asI64 iv).toNat .void
+        if idxInRange (asIdx iv) es.length then
+          let v := es.getD (asIdx iv).toNat .void
           cont (((s.retain v).release av).push v)
         else errS (s.release av) .outOfBounds
       | _ => dang s "dangling array"
@@ -517,8 +519,8 @@ def execData' (m : Module) (fr : Frame) (s : Core) (instrStart : Nat) (op : Opc)
     match av with
     | .arr a => match s.heap.obj? a with
       | some (.arr _ es) =>
-        if idxInRange (asI64 iv) es.length then
-          let i := (asI64 iv).toNat
+        if idxInRange (asIdx iv) es.length then
+          let i := (asIdx iv).toNat
           let s := s.release (es.getD i .void)
           match s.heap.obj? a with
           | some (.arr et' es') => cont ({ s with heap := s.heap.setObj a (.arr et' (es'.set i v)) }.push av)
@@ -554,8 +556,8 @@ def execData' (m : Module) (fr : Frame) (s : Core) (instrStart : Nat) (op : Opc)
     match av with
     | .arr a => match s.heap.obj? a with
       | some (.arr _ es) =>
-        if idxInRange (asI64 iv) es.length then
-          let i := (asI64 iv).toNat
+        if idxInRange (asIdx iv) es.length then
+          let i := (asIdx iv).toNat
           let s := s.release (es.getD i .void)
           match s.heap.obj? a with
           | some (.arr et' es') => cont ({ s with heap := s.heap.setObj a (.arr et' (es'.eraseIdx i)) }.push av)
